@@ -33,7 +33,7 @@ def translate(ctx):
             or not isinstance(fn.body[3], ast.Return):
         raise T.Unsupported(f"cond_fun changed shape: {args} {body}")
     expr = T.Tr().expr(fn.body[3].value)
-    g = core.COQ / "gen" / "Gen_C04.v"
+    g = core.gen_path("Gen_C04")
     g.parent.mkdir(exist_ok=True)
     g.write_text("From Coq Require Import ZArith Bool.\nFrom FV Require Import model.Grad.\nOpen Scope Z_scope.\n"
                  f"Definition gen_cond (time_step start_time_step : Z) : bool := {expr}.\n"
